@@ -72,7 +72,7 @@ def h_dm22(ex, which):
     ex.witness()
 
 
-def h_dm1(ex, n, cycle='1', dll='j1939-21', sym_lamps=2, cycles=2, stop=True, claim=None):
+def h_dm1(ex, n, cycle='1', dll='j1939-21', sym_lamps=2, cycles=2, stop=True, claim=None, stop_from='app'):
     """sender A (Dm1.start_send) -> subscriber on B and C; n trouble codes"""
     w = W.World(ex, mode='interleave')
     sa = Stack(w, 'A', 0x10 if claim is None else 0x90, dll=dll, claim=claim)
@@ -106,6 +106,21 @@ def h_dm1(ex, n, cycle='1', dll='j1939-21', sym_lamps=2, cycles=2, stop=True, cl
     rc.subscribe(mk('C'))
     w.run(until=T('1/100'))
     cyc = T(cycle)
+    stopped = []
+    if stop_from == 'timer':
+        # stop_send is called from another timer callback of the same ECU, registered earlier with the same period:
+        # in the pass in which it stops the DM1 sender the DM1 timer is due as well
+        ticks = []
+
+        def supervise(cookie):
+            w.callback_fired()
+            ticks.append(w.now)
+            if len(ticks) == cycles + 1:
+                tx.stop_send(supply)
+                stopped.append((w.now, len(supplied)))
+                return False
+            return True
+        sa.ca.add_timer(cyc.c, supervise)
     tx.start_send(supply, cycletime=cyc.c)
     t_start = w.now
     w.run(until=t_start + cyc * cycles + cyc * Fraction(9, 10))
@@ -134,7 +149,12 @@ def h_dm1(ex, n, cycle='1', dll='j1939-21', sym_lamps=2, cycles=2, stop=True, cl
             ex.claim('dm1.payload_bytes', sym_eq_seq(f['data'], want))
     ex.claim('job_threads_alive', sa.alive() and sb.alive() and sc.alive())
     ex.observe('rx', [[k, [[g['sa'], sorted(g['lamps'].items()), [[d['spn'], d['fmi'], d['oc']] for d in g['dtcs']]] for g in v]] for k, v in sorted(got.items())])
-    if stop:
+    if stop and stop_from == 'timer':
+        w.run(until=t_start + cyc * (cycles + 4))
+        ex.claim('dm1.stop_from_timer_callback_ran', len(stopped) == 1, {'ticks': len(ticks)})
+        if stopped:
+            ex.claim('dm1.no_send_after_stop', len(supplied) == stopped[0][1], {'extra_cycles': len(supplied) - stopped[0][1], 'stop_from': 'timer callback'})
+    elif stop:
         tx.stop_send(supply)
         t_stop = w.now
         nlog = len(w.log)
@@ -206,6 +226,9 @@ def jobs(tier):
     # sender that went through the real claim procedure: its one-shot claim timer re-arms every 0.5 s next to the DM1 timer
     out.append(Job('C16', 'c16:h_dm1', {'n': 1, 'cycle': '1/5', 'sym_lamps': 1, 'cycles': 12, 'claim': 'normal_veto'}, W=40, wall=300, validate=1))
     out.append(Job('C16', 'c16:h_dm1', {'n': 2, 'cycle': '3/10', 'sym_lamps': 1, 'cycles': 8, 'claim': 'normal_immediate'}, W=40, wall=300, validate=1))
+    out.append(Job('C16', 'c16:h_dm1', {'n': 1, 'cycle': '1/5', 'sym_lamps': 1, 'cycles': 2, 'stop_from': 'timer'}, W=40, wall=300, validate=1))
+    out.append(Job('C16', 'c16:h_dm1', {'n': 3, 'cycle': '1', 'sym_lamps': 1, 'cycles': 2, 'stop_from': 'timer'}, W=40, wall=300, validate=1))
+    out.append(Job('C16', 'c16:h_dm1', {'n': 1, 'dll': 'j1939-22', 'cycle': '1/5', 'sym_lamps': 1, 'cycles': 2, 'stop_from': 'timer'}, W=40, wall=300, validate=1))
     out.append(Job('C16', 'c16:h_dm1_overlap', {'n': 3, 'cycle': '3/50', 'cycles': 5}, W=40, wall=300, validate=1))
     out.append(Job('C16', 'c16:h_dm1_overlap', {'n': 5, 'cycle': '1/10', 'cycles': 6}, W=40, wall=300, validate=1))
     return out
@@ -216,7 +239,7 @@ def meta(tier):
         'bounds': ['DTC codec: all SPN 0..2^19-1, FMI 0..31, OC 0..127 and all 2^32 raw values (symbolic)',
                    'lamps: all 5^4 state combinations (split by the solver at the table lookup)',
                    'DM22: all SPN/FMI, destination 0..253, both request kinds',
-                   'DM1 end to end on J1939-21 (single frame and BAM), number of codes n in ' + ('{1,2,3,15}' if tier == 'quick' else '{1..20,100,400,445}') + ', every DTC field symbolic, 1-4 lamps symbolic, 2-3 cycles, then stop_send and 3 more cycle times',
+                   'DM1 end to end on J1939-21 (single frame and BAM), number of codes n in ' + ('{1,2,3,15}' if tier == 'quick' else '{1..20,100,400,445}') + ', every DTC field symbolic, 1-4 lamps symbolic, 2-3 cycles, then stop_send (from the application, and from another timer callback due in the same pass) and 3 more cycle times',
                    'DM1 end to end on J1939-22: n in ' + ('{1,14,15}' if tier == 'quick' else '{1,2,7,14,15,16,40,100}') + ' (multi-PG up to 58 bytes, FD BAM above)', 'cycle times 0.2 s / 1 s (>= transfer duration)', 'overlap shape: cycle time shorter than the BAM, trouble codes change every cycle (fresh symbolic SPN/OC per call): every received DM1 equals one supplied snapshot'],
         'outside': ['cycle times shorter than the BAM they trigger', 'several start_send registrations on one Dm1 object'],
         'assumptions': ['reference layouts jv/ref/dm.py from SAE J1939-73 field tables'],
